@@ -1,6 +1,6 @@
 from _warnings import warn
 from typing import Sequence
-from numpy import ndarray, array, sort, zeros, take_along_axis, expand_dims
+from numpy import ndarray, array, sort, zeros, take_along_axis, expand_dims, int64
 
 
 def sample_hdi(sample: ndarray, fraction: float) -> ndarray:
@@ -56,6 +56,11 @@ def sample_hdi(sample: ndarray, fraction: float) -> ndarray:
             \r>> array has dimensionality {s.ndim}.
             """
         )
+
+    # differences of narrow integer types can overflow (e.g. int8: 100 - (-100)),
+    # so widen them before the interval widths are computed
+    if s.dtype.kind in "iu" and s.dtype.itemsize < 8:
+        s = s.astype(int64)
 
     if s.ndim == 1:
         s.resize([s.size, 1])
